@@ -574,6 +574,20 @@ def check_tree(spec):
     except Exception as e:   # noqa
         raise Violation('valid_rejected', {'error': f'{type(e).__name__}: {str(e)[:300]}'})
     compare(tt, data, ctx, stats)
+    # the same tree re-read from files (the paths recur from case to case within a shard process, with other contents)
+    import h5py
+    with sandbox() as d:
+        s = _call('to_str_raised', ctx, tt.to_str)
+        jp = d / 'taxonomy.json'
+        jp.write_text(s)
+        tt4 = _call('from_json_file_raised', ctx, TaxonomyTree.from_json_file, jp)
+        compare(tt4, data, {'after': ['to_str->file->from_json_file']}, stats, serial=False)
+        hp = d / 'precomputed_stats.h5'
+        with h5py.File(hp, 'w') as f:
+            f.create_dataset('taxonomy_tree', data=s.encode('utf-8'))
+        tt5 = _call('from_precomputed_stats_raised', ctx, TaxonomyTree.from_precomputed_stats, hp)
+        compare(tt5, data, {'after': ['stored in a statistics file->from_precomputed_stats']}, stats, serial=False)
+        stats['round_trips'] += 2
     depth = len(m.h) - 1 if len(m.h) <= 4 else 2
     transformations(tt, data, ctx, stats, depth)
     # the source object must still describe the same tree (it is used for back-filling after a drop)
